@@ -82,6 +82,11 @@ class MessageManager(interfaces.TokenInterface, interfaces.MessageManager):
             cancellable.cancel()
         self._active_exchanges = None
 
+        for _mid, handle in self._piggyback_opportunities.values():
+            # Otherwise they would fire after the transport is gone
+            handle.cancel()
+        self._piggyback_opportunities = {}
+
         await self.message_interface.shutdown()
 
     #
